@@ -8,6 +8,9 @@
 (*   "only_retx"  in every round only the j-th copy is answered (j<=B+1)   *)
 (*   "fail"       every DWR is answered with a failing Result-Code         *)
 (*   "none"       no DWR is answered                                       *)
+(*   "wfail_none" the transport refuses the first DWR (temporary error),   *)
+(*                the peer never answers: the next round exhausts the      *)
+(*                budget and the connection is closed                      *)
 (*   "noresult"   every DWR is answered with a DWA lacking a Result-Code   *)
 (*   "dup"        every DWR is answered with two success DWAs              *)
 (*   "multi_stop" the first n rounds are answered with j success DWAs per  *)
@@ -18,13 +21,13 @@
 (***************************************************************************)
 EXTENDS Integers, Sequences, TLC
 
-Closes(s) == s.kind \in {"stop_after", "multi_stop", "fail", "none", "noresult"}
+Closes(s) == s.kind \in {"stop_after", "multi_stop", "fail", "none", "noresult", "wfail_none"}
 \* copies expected in round r (1-based)
 Copies(s, r) == CASE s.kind \in {"all", "dup"} -> 1
                   [] s.kind = "only_retx" -> s.j
                   [] s.kind \in {"stop_after", "multi_stop"} -> IF r <= s.n THEN 1 ELSE s.budget + 1
                   [] OTHER -> s.budget + 1
-NRounds(s) == CASE s.kind \in {"stop_after", "multi_stop"} -> s.n + 1 [] s.kind \in {"fail", "none", "noresult"} -> 1 [] OTHER -> s.rounds
+NRounds(s) == CASE s.kind \in {"stop_after", "multi_stop"} -> s.n + 1 [] s.kind \in {"fail", "none", "noresult", "wfail_none"} -> 1 [] OTHER -> s.rounds
 
 Reasons(s, o) ==
      (IF Len(o.rounds) # NRounds(s) THEN <<"round-count">> ELSE <<>>)
